@@ -37,10 +37,13 @@ def run(ch: Checker) -> None:
                      'every loop over the plugins iterates self.plugins.values() directly', 8)
     ch.rule('C09.2', 'chain loops (before_upstream_connection, handle_client_request x2, handle_upstream_chunk, handle_client_data, on_access_log): the hook receives the carried value, '
                      'the carried value is reassigned from the hook result before the next iteration, and on None the loop is left before any further hook', 6)
+    ch.rule('C09.2b', 'hand-over between chains: the request given to the handle_client_request chain (and whatever reads self.request later) is the LAST non-None value the '
+                      'before_upstream_connection chain produced -- also when a later plugin of that chain returned None (two-iteration paths)', 1)
     ch.rule('C09.3', 'None suppresses: after before_upstream_connection returned None no path reaches connect_upstream; after handle_client_request returned None no path queues to upstream or client', 3)
     ch.rule('C09.4', 'HttpRequestRejected.response hands status_code, reason, headers, body to build_http_response unchanged with conn_close=True', 1)
     ch.rule('C09.5', 'lifecycle hooks are attempted on every path of the shutdown sequence, exception edges included: HttpProtocolHandler.shutdown -> plugin.on_client_connection_close (when a plugin exists); '
                      'HttpProxyPlugin.on_client_connection_close -> on_access_log chain and on_upstream_connection_close loop; HttpWebServerPlugin.on_client_connection_close -> route hooks', 4)
+    ch.rule('C09.5b', 'a loop over the plugins that delivers a lifecycle callback (on_upstream_connection_close / on_client_connection_close) has no break / return: every plugin gets it exactly once', 1)
     ch.rule('C09.6', 'no strict (errors-less) text_()/decode() of request/response attributes filled from the wire on the path to the lifecycle hooks', 8)
 
     hp = prog.class_named('HttpProxyPlugin')
@@ -187,6 +190,56 @@ def run(ch: Checker) -> None:
             if hook.func.attr in ('before_upstream_connection', 'handle_client_request'):  # type: ignore[attr-defined]
                 ch.check(not c3, 'C09.3', fn, key, 'None from %s suppresses connect/forward' % hook.func.attr, c3[0][0] if c3 else '', witness=c3[0][1] if c3 else None, line=l.lineno)  # type: ignore[attr-defined]
 
+    # ---------------- C09.2b hand-over between the two request chains of on_request_complete
+    orc2 = prog.own_method('HttpProxyPlugin', 'on_request_complete')
+    g2 = cfg_of(orc2, prog, exc_edges=False)
+    bad2b = None
+    n2b = 0
+    for p in fpaths(g2, max_edge_visits=2, limit=200000):
+        ch.paths += 1
+        sym = Sym(p)
+        seen_second = False
+        last_good = None       # inlined text of the last before_upstream_connection call whose result was not None
+        calls = []
+        for i, nd, lab in p.executed():
+            if nd.kind != 'stmt' or nd.ast is None:
+                continue
+            for c in walk_no_nested(nd.ast):
+                if isinstance(c, ast.Call) and isinstance(c.func, ast.Attribute) and c.func.attr in ('before_upstream_connection', 'handle_client_request') and c.args:
+                    calls.append((i, nd.ast, c))
+        for (i, st, c) in calls:
+            if c.func.attr == 'before_upstream_connection':   # type: ignore[attr-defined]
+                res = norm(st.targets[0]) if isinstance(st, ast.Assign) and len(st.targets) == 1 else None
+                # outcome of the None test on the result, between this call and the next visit of a hook / end
+                nxt = min([j for (j, _, _) in calls if j > i] + [len(p.steps)])
+                outcome = None
+                for k in range(i + 1, nxt):
+                    nk = g2.nodes[p.steps[k][0]]
+                    if nk.kind == 'test' and p.steps[k][1] in (True, False) and res is not None:
+                        from ..cfg import atom_key
+                        a, pol = atom_key(nk.ast, p.steps[k][1])  # type: ignore[arg-type]
+                        if a == '%s is None' % res:
+                            outcome = pol
+                            break
+                if outcome is False:
+                    last_good = norm(sym.value(c, i))
+            else:
+                if last_good is None or seen_second:
+                    continue
+                seen_second = True
+                n2b += 1
+                arg = c.args[0]
+                if attr_chain(arg) and not isinstance(arg, ast.Name):
+                    stv = sym.attr_store(attr_chain(arg), i)     # type: ignore[arg-type]
+                    got = norm(stv[1]) if stv is not None else norm(arg) + ' (never updated on this path)'
+                else:
+                    got = norm(sym.value(arg, i))
+                if got != last_good:
+                    bad2b = ('handle_client_request receives %s, but the last value a before_upstream_connection plugin returned on this path is %s: when an earlier plugin rewrites the '
+                             'request and a later one returns None (serve locally), the rewrite is lost for every hook that follows' % (got[:90], last_good[:90]), p.describe(26))
+    ch.check(bad2b is None and n2b > 0, 'C09.2b', orc2, 'hand-over before_upstream_connection -> handle_client_request',
+             'the second chain starts from the last non-None result of the first on all %d two-iteration path(s)' % n2b, bad2b[0] if bad2b else 'no path runs both chains', witness=bad2b[1] if bad2b else None)
+
     # ---------------- C09.4
     rej = prog.class_named('HttpRequestRejected')
     rf = rej.methods.get('response')
@@ -237,6 +290,31 @@ def run(ch: Checker) -> None:
             missing = p.describe()
     ch.check(missing is None and npaths > 0, 'C09.5', wocc, 'route hooks', 'route.on_client_connection_close and route.on_access_log run on every path with a route',
              'the web server skips the route\'s close / access-log hook on a normal path', witness=missing)
+
+    # ---------------- C09.5b the loops that deliver lifecycle callbacks reach every plugin
+    LIFECYCLE = ('on_upstream_connection_close', 'on_client_connection_close')
+    n5b = 0
+    for cls_name in ('HttpProxyPlugin', 'HttpProtocolHandler', 'HttpWebServerPlugin'):
+        ci5 = prog.class_named(cls_name)
+        for fn in ci5.methods.values():
+            for l in walk_no_nested(fn.node):
+                if not isinstance(l, (ast.For, ast.AsyncFor)) or not any((attr_chain(n_) or '').endswith('plugins') for n_ in ast.walk(l.iter)):
+                    continue
+                hk = _hook_call(ast.Module(body=l.body, type_ignores=[]), LIFECYCLE)
+                if hk is None:
+                    continue
+                n5b += 1
+                leaves = []
+                for x in walk_no_nested(l):
+                    if isinstance(x, (ast.Return, ast.Break)):
+                        inner = [y for y in walk_no_nested(l) if isinstance(y, (ast.For, ast.AsyncFor, ast.While)) and y is not l and any(z is x for z in ast.walk(y))]
+                        if isinstance(x, ast.Break) and inner:
+                            continue
+                        leaves.append(x)
+                ch.check(not leaves, 'C09.5b', fn, 'for %s in %s: %s' % (norm(l.target), norm(l.iter), hk.func.attr),   # type: ignore[attr-defined]
+                         'the loop delivering %s runs over every plugin' % hk.func.attr,   # type: ignore[attr-defined]
+                         'the loop that delivers %s can be left early (%s at line %s): plugins configured after that point never get the callback and keep what they hold for the connection'
+                         % (hk.func.attr, type(leaves[0]).__name__.lower() if leaves else '', leaves[0].lineno if leaves else ''), line=l.lineno)   # type: ignore[attr-defined]
 
     # ---------------- C09.6 strict decode of wire bytes before the hooks
     n6 = 0
